@@ -41,8 +41,17 @@ class Ptr:
         return hash((id(self.arr), self.i))
 
 
+class DPtr(Ptr):
+    """a `double*` into an array of Vec2 objects (`(double*)points`): element 2k is points[k].x, element 2k+1 is points[k].y"""
+    __slots__ = ()
+
+
 class OutOfBounds(AnalysisBroken):
     """a store or load outside a local array of the interpreted function"""
+
+
+class UndefinedConversion(AnalysisBroken):
+    """a floating value converted to an integer type that cannot represent its truncation (undefined in C++)"""
 
 
 class UndefinedShift(AnalysisBroken):
@@ -132,6 +141,7 @@ class Mini:
     def __init__(self, db, hook=None, members=None, budget=20000, typed=None, member_store=False, c_ints=False, globals=None):
         self.db = db
         self.globals = globals or {}       # namespace-scope variables (visible in called helpers too)
+        self.ieee = False                  # double division rounds (Python floats) instead of being exact (Fractions)
         self.obj_store = False             # stores to fields of struct objects reached through pointers / `this` are allowed
         self.hook = hook or (lambda callee, args, node: None)
         self.members = members or {}       # normalised member-expression text -> value
@@ -159,9 +169,20 @@ class Mini:
             v = self.ev(e.child('sub'), env)
             if 'FloatingToIntegral' in (e.cast or ''):
                 from fractions import Fraction
+                if isinstance(v, float) and (v != v or v in (float('inf'), float('-inf'))):
+                    raise UndefinedConversion('`%s` converts %r to an integer' % (e.text()[:60], v))
                 if isinstance(v, (Fraction, float)):
                     v = int(v)          # conversion to an integer type truncates toward zero
+                    t_ = (e.ct or e.t or '').replace('const ', '').strip()
+                    lo_, hi_ = (0, _UMASK[t_]) if t_ in _UMASK else ((-(1 << (_SBITS[t_] - 1)), (1 << (_SBITS[t_] - 1)) - 1) if t_ in _SBITS else (None, None))
+                    if lo_ is not None and not (lo_ <= v <= hi_):
+                        raise UndefinedConversion('`%s` converts %d, which the type %s cannot hold' % (e.text()[:60], v, t_))
             return _wrap(e.ct or e.t, v) if (e.cast or '') in ('IntegralCast', 'NoOp', '') or 'Integral' in (e.cast or '') else v
+        if e is not None and e.k == 'CStyleCastExpr' and self.obj_store and (e.t or '').replace('const ', '').replace(' ', '') == 'double*' and e.child('sub') is not None:
+            v = self.ev(e.child('sub'), env)
+            if isinstance(v, Ptr) and not isinstance(v, DPtr) and 'Vec2' in (_strip_casts(e.child('sub')).t or ''):
+                return DPtr(v.arr, 2 * v.i)
+            return v
         e = _strip_casts(e)
         if e is None:
             raise AnalysisBroken('mini-interpreter: empty expression')
@@ -230,7 +251,7 @@ class Mini:
             return self.ev(e.c[0], env)
         if k == 'ArraySubscriptExpr':
             b, i = self.ev(e.child('base') or e.c[0], env), self.ev(e.child('idx') or e.c[1], env)
-            return self.load(Ptr(b.arr, b.i + i))
+            return self.load(type(b)(b.arr, b.i + i))
         if k == 'UnaryOperator':
             op = e.op
             if op == '*':
@@ -243,7 +264,7 @@ class Mini:
                     return Ref(env, t.n)
                 if t.k == 'ArraySubscriptExpr':
                     b, i = self.ev(t.child('base') or t.c[0], env), self.ev(t.child('idx') or t.c[1], env)
-                    return Ptr(b.arr, b.i + i)
+                    return type(b)(b.arr, b.i + i)
                 raise AnalysisBroken('mini-interpreter: address of `%s`' % t.text()[:40])
             if op in ('++', '--', 'post++', 'post--'):
                 t = _strip_casts(e.child('sub'))
@@ -253,13 +274,13 @@ class Mini:
                         o_, f_ = lv
                         old = o_.get(f_, 0)
                         d = 1 if '+' in op else -1
-                        o_[f_] = Ptr(old.arr, old.i + d) if isinstance(old, Ptr) else _mask(t.ct or t.t, old + d)
+                        o_[f_] = type(old)(old.arr, old.i + d) if isinstance(old, Ptr) else _mask(t.ct or t.t, old + d)
                         return old if op.startswith('post') else o_[f_]
                 if t.k != 'DeclRefExpr':
                     raise AnalysisBroken('mini-interpreter: increment of `%s`' % t.text()[:40])
                 old = env[t.n]
                 d = 1 if '+' in op else -1
-                env[t.n] = Ptr(old.arr, old.i + d) if isinstance(old, Ptr) else old + d
+                env[t.n] = type(old)(old.arr, old.i + d) if isinstance(old, Ptr) else old + d
                 return old if op.startswith('post') else env[t.n]
             v = self.ev(e.child('sub'), env)
             return {'-': lambda: -v, '+': lambda: v, '!': lambda: int(not v), '~': lambda: ~v}[op]()
@@ -278,9 +299,9 @@ class Mini:
             if isinstance(a, Ptr) or isinstance(b, Ptr):
                 if op == '+':
                     p, n_ = (a, b) if isinstance(a, Ptr) else (b, a)
-                    return Ptr(p.arr, p.i + n_)
+                    return type(p)(p.arr, p.i + n_)
                 if op == '-' and isinstance(a, Ptr) and not isinstance(b, Ptr):
-                    return Ptr(a.arr, a.i - b)
+                    return type(a)(a.arr, a.i - b)
                 if op == '-':
                     return a.i - b.i
                 if op in ('==', '!='):
@@ -290,6 +311,12 @@ class Mini:
                 else:
                     raise AnalysisBroken('mini-interpreter: pointer operator %s' % op)
             import operator as O
+            if op == '/' and (e.t or '') in ('double', 'float', 'long double') and self.ieee:
+                a_, b_ = float(a), float(b)        # IEEE double division, rounded like the hardware
+                if b_ == 0:
+                    import math
+                    return math.nan if (a_ == 0 or a_ != a_) else math.copysign(math.inf, a_) * math.copysign(1.0, b_)
+                return a_ / b_
             if op == '/' and (e.t or '') in ('double', 'float', 'long double'):
                 from fractions import Fraction
                 if b == 0:
@@ -313,6 +340,8 @@ class Mini:
             from fractions import Fraction
             if isinstance(r_, Fraction) and r_.denominator != 1:
                 return r_
+            if isinstance(r_, float) and not isinstance(r_, bool):
+                return r_           # (floating values come from hooks that answer libm calls)
             r_ = int(r_)
             if self.c_ints and op in ('+', '-', '*', '<<', '>>', '&', '|', '^') and isinstance(a, int) and isinstance(b, int):
                 r_ = _wrap(e.ct or e.t, r_)      # the operation is carried out in its C type: `int << 35` does not reach bit 35
@@ -330,8 +359,8 @@ class Mini:
                     r = self.ev(e.child('rhs'), env)
                     if e.op != '=':
                         import operator as O
-                        r = {'+=': O.add, '-=': O.sub, '*=': O.mul, '|=': O.or_, '&=': O.and_}[e.op](o_.get(f_, 0), r)
-                    o_[f_] = Obj(r) if isinstance(r, Obj) else _mask(t.ct or t.t, r)
+                        r = {'+=': O.add, '-=': O.sub, '*=': O.mul, '|=': O.or_, '&=': O.and_, '^=': O.xor}[e.op](o_.get(f_, 0), r)
+                    o_[f_] = Obj(r) if isinstance(r, Obj) and '*' not in (t.t or '') else _mask(t.ct or t.t, r)
                     return r
             if t.k == 'MemberExpr' and t.n:
                 # a field of a struct object held in a local (or handed in by non-const reference)
@@ -355,8 +384,15 @@ class Mini:
                     p_ = self.ev(t.child('sub'), env)
                 else:
                     b, i = self.ev(t.child('base') or t.c[0], env), self.ev(t.child('idx') or t.c[1], env)
-                    p_ = Ptr(b.arr, b.i + i) if isinstance(b, Ptr) else None
+                    p_ = type(b)(b.arr, b.i + i) if isinstance(b, Ptr) else None
                 r = self.ev(e.child('rhs'), env)
+                if isinstance(p_, DPtr) and id(p_.arr) in self.writable:
+                    if not (0 <= p_.i < 2 * len(p_.arr)):
+                        raise OutOfBounds('mini-interpreter: store outside the array (double %d of %d) at %s' % (p_.i, 2 * len(p_.arr), e.loc()))
+                    if e.op != '=':
+                        raise AnalysisBroken('mini-interpreter: compound store through a double view')
+                    p_.arr[p_.i // 2]['xy'[p_.i % 2]] = r
+                    return r
                 if isinstance(p_, Ref):
                     cur = p_.env.get(p_.name, 0)
                 elif isinstance(p_, Ptr) and id(p_.arr) in self.writable:
@@ -384,13 +420,18 @@ class Mini:
                 cur = tgt_env[tgt_name]
                 import operator as O
                 if isinstance(cur, Ptr):
-                    r = Ptr(cur.arr, cur.i + (r if e.op == '+=' else -r))
+                    r = type(cur)(cur.arr, cur.i + (r if e.op == '+=' else -r))
                 else:
                     r = {'+=': O.add, '-=': O.sub, '*=': O.mul, '|=': O.or_, '&=': O.and_, '^=': O.xor, '<<=': O.lshift, '>>=': O.rshift}[e.op](cur, r)
-            tgt_env[tgt_name] = Obj(r) if isinstance(r, Obj) and e.op == '=' else r
+            tgt_env[tgt_name] = Obj(r) if isinstance(r, Obj) and e.op == '=' and '*' not in (t.t or '') else r      # (a struct is copied, a pointer to one is not)
             return r
+        if k == 'InitListExpr' and self.obj_store and (e.t or '').replace('const ', '').replace('gdstk::', '').startswith('Array<') and \
+                all(c is None or c.k in ('ImplicitValueInitExpr', 'CXXScalarValueInitExpr') or c.cv == 0 or (c.k == 'InitListExpr' and not [y for y in c.c if y is not None]) for c in e.c):
+            return Obj(capacity=0, count=0, items=0)
         if k in ('CXXScalarValueInitExpr', 'ImplicitValueInitExpr') or (k == 'InitListExpr' and not [c for c in e.c if c is not None] and not _is_vec2(e.t)):
             return 0
+        if k == 'LambdaExpr':
+            return ('closure', e.id)       # the body is the lambda's call operator in the fact base; captures are by reference to env
         if k == 'CXXThisExpr':
             return env.get('this', ('opaque', 'this'))
         if k in ('CXXConstructExpr', 'CXXTemporaryObjectExpr', 'MaterializeTemporaryExpr', 'CXXBindTemporaryExpr', 'ExprWithCleanups', 'CXXFunctionalCastExpr', 'CompoundLiteralExpr') or (k == 'InitListExpr' and _is_vec2(e.t)):
@@ -402,9 +443,13 @@ class Mini:
                 return Obj(v) if isinstance(v, Obj) else v        # struct copy
             if not a and self.obj_store and not _is_vec2(e.t):
                 return Obj()                    # `T local;` of a record type: fields are written before they are read
+            if self.obj_store and not _is_vec2(e.t) and k in ('CXXConstructExpr', 'CXXTemporaryObjectExpr') and len(a) > 1:
+                return Obj()                    # an object of a class outside the analysed sources (its fields: what the code stores)
             if _is_vec2(e.t) and len(a) in (0, 2):
                 return Obj(x=self.ev(a[0], env), y=self.ev(a[1], env)) if a else Obj(x=0, y=0)
             raise AnalysisBroken('mini-interpreter: construction `%s`' % e.text()[:50])
+        if k == 'CXXOperatorCallExpr' and (e.callee or '').endswith('::operator()') and any(getattr(x, 'is_lambda', False) for x in (self.db.fn(e.callee, required=False, all=True) or [])):
+            k = 'CallExpr'
         if k == 'CXXOperatorCallExpr' and not is_assign(e):
             ops_ = e.args
             name = (e.callee or '').split('::')[-1]
@@ -442,13 +487,39 @@ class Mini:
             g = [x for x in (self.db.fn(e.callee, required=False, all=True) or []) if x.body is not None] if e.callee else []
             if len(g) > 1 and len({(x.file, x.line) for x in g}) == 1:
                 g = g[:1]           # an inline / template function seen in several units
+            if len(g) >= 1 and all(getattr(x, 'is_lambda', False) for x in g):
+                # a local lambda: among several of one function, the one defined inside the function being interpreted and before the call
+                inside = [x for x in g if x.file == e.fn.file and e.fn.line <= x.line <= (e.l or x.line)] or g
+                h_ = max(inside, key=lambda x: x.line)
+                if e.j.get('lambda_line') is not None and any(x.line == e.j['lambda_line'] for x in g):
+                    h_ = next(x for x in g if x.line == e.j['lambda_line'])
+                elif e.k == 'CXXOperatorCallExpr':
+                    from . import normal as _N
+                    h2 = _N.lambda_of(self.db, e)
+                    if h2 is not None:
+                        h_ = h2
+                a_nodes = e.args
+                if len(a_nodes) == len(h_.params) + 1:
+                    a_nodes, args = a_nodes[1:], args[1:]          # operator() on the closure object
+                saved = {p['n']: env[p['n']] for p in h_.params if p['n'] in env}
+                for p, a in zip(h_.params, args):
+                    env[p['n']] = Obj(a) if isinstance(a, Obj) and '&' not in (p.get('t') or '') and '*' not in (p.get('t') or '') else a
+                try:
+                    self.run(h_.body, env)            # captures by reference: the body works on the caller's variables
+                    rv = None
+                except Return as rr:
+                    rv = rr.v
+                for p in h_.params:
+                    env.pop(p['n'], None)
+                env.update(saved)
+                return rv
             if len(g) == 1 and k == 'CXXMemberCallExpr' and e.child('obj') is not None:
                 try:
                     o_ = self.ev(e.child('obj'), env)
                 except AnalysisBroken:
                     o_ = None
                 if isinstance(o_, Obj):
-                    en = {p['n']: (Obj(a) if isinstance(a, Obj) and '&' not in (p.get('t') or '') else a) for p, a in zip(g[0].params, args)}
+                    en = {p['n']: (Obj(a) if isinstance(a, Obj) and '&' not in (p.get('t') or '') and '*' not in (p.get('t') or '') else a) for p, a in zip(g[0].params, args)}
                     en['this'] = o_
                     try:
                         self.run(g[0].body, en)
@@ -496,8 +567,12 @@ class Mini:
     def load(self, p):
         if isinstance(p, Ref):
             return p.env.get(p.name, 0)
+        if isinstance(p, DPtr):
+            if not (0 <= p.i < 2 * len(p.arr)):
+                raise OutOfBounds('mini-interpreter: read outside the array (double %d of %d)' % (p.i, 2 * len(p.arr)))
+            return p.arr[p.i // 2].get('xy'[p.i % 2], 0)
         if not isinstance(p, Ptr) or not (0 <= p.i < len(p.arr)):
-            raise AnalysisBroken('mini-interpreter: read outside the input array (index %s of %s)' % (getattr(p, 'i', '?'), len(getattr(p, 'arr', []))))
+            raise (OutOfBounds if isinstance(p, Ptr) else AnalysisBroken)('mini-interpreter: read outside the input array (index %s of %s)' % (getattr(p, 'i', '?'), len(getattr(p, 'arr', []))))
         return p.arr[p.i]
 
     # ---- statements
@@ -604,7 +679,7 @@ def _writes(stmt, name):
     return False
 
 
-def value_at(db, use, typed=None, members=None, hook=None):
+def value_at(db, use, typed=None, members=None, hook=None, obj_store=False, env0=None, want_env=False):
     """Value of the expression `use` (a node inside a function body) when the inputs are bound by `typed` / `members`.
     Locals read by `use` are computed by interpreting, in source order, exactly those statements of the enclosing
     blocks that precede `use` and write one of these locals (a backward slice closed over the locals the slice itself
@@ -656,10 +731,61 @@ def value_at(db, use, typed=None, members=None, hook=None):
                         need |= more
                     changed = True
     mi = Mini(db, hook=hook, typed=typed, members=dict(members or {}))
-    env = {}
+    mi.obj_store = obj_store
+    env = dict(env0 or {})
     try:
         for sid in sorted(picked, key=lambda i_: order[i_]):
             mi.run(picked[sid], env)
     except (_Break, _Continue):
         raise AnalysisBroken('mini-interpreter: break/continue escapes the slice for `%s`' % use.text()[:40])
-    return mi.ev(use, env)
+    v = mi.ev(use, env)
+    return (v, env) if want_env else v
+
+
+def array_hook(mi_ref, extra=None):
+    """hook answering the methods of gdstk::Array<T> on array objects Obj(items=Ptr|0, count, capacity): ensure_slots, append,
+    append_unsafe, extend, clear (operator[] and .count/.items are read by the interpreter itself). Appending beyond the capacity
+    that ensure_slots reserved through append_unsafe is reported (OutOfBounds). `extra(callee, args, node)` is asked first."""
+    def grow(o, n):
+        it, cnt = o.get('items', 0), o.get('count', 0)
+        lst = list(it.arr[it.i:it.i + cnt]) if isinstance(it, Ptr) else []
+        lst += [Obj() for _ in range(n)]
+        mi_ref[0].writable.add(id(lst))
+        o['items'] = Ptr(lst, 0)
+        o['capacity'] = len(lst)
+
+    def hook(callee, args, node):
+        if extra is not None:
+            r = extra(callee, args, node)
+            if r is not None:
+                return r
+        c = callee or ''
+        short, cls = c.split('::')[-1], c.rsplit('::', 1)[0]
+        if cls.startswith('gdstk::Array<') and short in ('ensure_slots', 'append', 'append_unsafe', 'extend', 'clear'):
+            o = mi_ref[0].call_object()
+            if not isinstance(o, Obj):
+                raise AnalysisBroken('mini-interpreter: Array method on something that is not an array object')
+            if short == 'ensure_slots':
+                if o.get('capacity', 0) < o.get('count', 0) + args[0]:
+                    grow(o, o.get('count', 0) + args[0] - o.get('capacity', 0))
+            elif short == 'clear':
+                o['items'], o['count'], o['capacity'] = 0, 0, 0
+            elif short == 'extend':
+                src = args[0]
+                n = src.get('count', 0)
+                if o.get('capacity', 0) < o.get('count', 0) + n:
+                    grow(o, o.get('count', 0) + n - o.get('capacity', 0))
+                for k_ in range(n):
+                    v = src['items'].arr[src['items'].i + k_]
+                    o['items'].arr[o['count']] = Obj(v) if isinstance(v, Obj) else v
+                    o['count'] += 1
+            else:
+                if o.get('capacity', 0) < o.get('count', 0) + 1:
+                    if short == 'append_unsafe':
+                        raise OutOfBounds('append_unsafe beyond the reserved capacity (%d of %d) at %s' % (o.get('count', 0) + 1, o.get('capacity', 0), node.loc()))
+                    grow(o, 1)
+                o['items'].arr[o['count']] = Obj(args[0]) if isinstance(args[0], Obj) else args[0]
+                o['count'] += 1
+            return (None,)
+        return None
+    return hook
